@@ -447,6 +447,17 @@ func propCases(prop string, g *Gen, n int) []*Case {
 			add(&Case{R: r, Obs: o, Oracles: []string{"C03"}, Hops: hops})
 		}
 	case "C04":
+		for _, leaf := range []*R{{Op: "stdnew", S: []string{""}}, {Op: "new", S: []string{""}}, {Op: "pkgnew", S: []string{""}}} {
+			for _, w := range []*R{
+				{Op: "wrap", S: []string{"ctx"}}, {Op: "withmessage", S: []string{"ctx"}}, {Op: "pkgmsg", S: []string{"ctx"}},
+				{Op: "uwrap", S: []string{"unwrap", "ctx"}, Strs: []string{}}, {Op: "patherror", S: []string{"open", "/p"}}, {Op: "syscallerror", S: []string{"read"}},
+			} {
+				wr := cloneR(w)
+				wr.Kids = []*R{cloneR(leaf)}
+				hops := [][][]string{{g.proc(1)}, {g.proc(2)}, g.hopSeq(2, false)}
+				add(&Case{R: wr, Obs: names("text", "shape"), Oracles: []string{"C04"}, Hops: hops})
+			}
+		}
 		for i := 0; i < n; i++ {
 			r := g.Tree(1 + g.r.intn(5))
 			hops := [][][]string{{g.proc(1)}, {g.proc(2)}, {g.proc(2), g.proc(1)}, {g.proc(1), g.proc(2), g.proc(2)}}
@@ -522,6 +533,17 @@ func propCases(prop string, g *Gen, n int) []*Case {
 					add(&Case{R: nilr, Obs: names("nilness", "text"), Oracles: []string{"C07"}})
 					add(&Case{R: g.Wrapper(&R{Op: "secondary", Kids: []*R{{Op: "nil"}, g.richHidden()}}, 1), Obs: names("nilness", "text"), Oracles: []string{"C07"}})
 				}
+			case 4:
+				// an error argument next to a %w argument is still captured (as a secondary error)
+				if len(cases)%12 == 4 {
+					other := g.richHidden()
+					f := []FP{{Kind: "lit", S: "while "}, {Kind: "err", Verb: "v", R: other}, {Kind: "lit", S: ": "}, {Kind: "err", Verb: "w", R: g.Tree(1 + g.r.intn(2))}}
+					r = &R{Op: []string{"newf", "assertf"}[g.r.intn(2)], Fmt: f}
+					if g.r.chance(50) {
+						r = g.Wrapper(r, 1)
+					}
+					add(&Case{R: cloneR(r), Obs: names("text", "hints"), Oracles: []string{"C07vis"}})
+				}
 			case 5:
 				// an empty replacement message is still a replacement
 				h := g.richHidden()
@@ -550,7 +572,7 @@ func propCases(prop string, g *Gen, n int) []*Case {
 			obs = append(obs, isObs(len(refs))[1:]...)
 			obs = append(obs, asObs()...)
 			obs = append(obs, Obs{Name: "hop", Procs: knowing1, Sub: append(names("root", "hints", "details", "keys", "domain", "flags", "codes", "os", "text"), isObs(len(refs))[1:]...)})
-			add(&Case{R: r, Refs: refs, Obs: obs, Oracles: []string{"C07"}, Hops: hops})
+			add(&Case{R: r, Refs: refs, Obs: obs, Oracles: []string{"C07", "C07vis"}, Hops: hops})
 		}
 	case "C07M":
 		// Mark(e, ref): the reference contributes nothing but its mark
@@ -774,7 +796,7 @@ func propCases(prop string, g *Gen, n int) []*Case {
 		}
 	case "C15":
 		obs := names("report")
-		obs = append(obs, Obs{Name: "hop", Procs: knowing1, Sub: names("report")})
+		obs = append(obs, Obs{Name: "hop", Procs: knowing1, Sub: names("report")}, Obs{Name: "hop", Procs: knowing2, Sub: names("report")})
 		for _, r := range enumPairs(g) {
 			add(&Case{R: r, Obs: obs, Oracles: []string{"C15"}, Hops: [][][]string{knowing1}})
 		}
